@@ -358,8 +358,15 @@ func runSimCaseWith(t *rapid.T, o simOpts, setup func(*sim.World)) *sim.World {
 		usedTemplate = true
 		full := uint16(1<<uint(cfg.N) - 1)
 		m := uint16(rapid.IntRange(1, int(full)).Draw(t, "eq-mask"))
-		w.Apply(sim.Action{K: "byz", Byz: &sim.ByzSpec{Strat: "pp", As: l, To: m, H: 1, V: 0, P: []int{0, 0}}})
-		w.Apply(sim.Action{K: "byz", Byz: &sim.ByzSpec{Strat: "pp", As: l, To: full &^ m, H: 1, V: 0, P: []int{1, 0}}})
+		if rapid.IntRange(0, 3).Draw(t, "eq-same-hash") == 0 {
+			// same signed header for everybody, but the second group gets ANOTHER block attached to it (only a consumer validation that
+			// is really carried out notices)
+			w.Apply(sim.Action{K: "byz", Byz: &sim.ByzSpec{Strat: "pp", As: l, To: m, H: 1, V: 0, P: []int{1, 0}}})
+			w.Apply(sim.Action{K: "byz", Byz: &sim.ByzSpec{Strat: "pp", As: l, To: full &^ m, H: 1, V: 0, P: []int{0, 1}}})
+		} else {
+			w.Apply(sim.Action{K: "byz", Byz: &sim.ByzSpec{Strat: "pp", As: l, To: m, H: 1, V: 0, P: []int{0, 0}}})
+			w.Apply(sim.Action{K: "byz", Byz: &sim.ByzSpec{Strat: "pp", As: l, To: full &^ m, H: 1, V: 0, P: []int{1, 0}}})
+		}
 		if rapid.Bool().Draw(t, "eq-run-first") {
 			w.Apply(sim.Action{K: "run", N: rapid.SampledFrom([]int{3, 10, 40}).Draw(t, "eq-run")})
 		}
@@ -374,6 +381,11 @@ func runSimCaseWith(t *rapid.T, o simOpts, setup func(*sim.World)) *sim.World {
 				To: uint16(rapid.IntRange(1, int(full)).Draw(t, "eq-support-to")), H: 1, V: 0, P: []int{rapid.IntRange(0, 1).Draw(t, "eq-which"), rapid.IntRange(0, 1).Draw(t, "eq-commits-only")}}})
 		}
 		w.Apply(sim.Action{K: "run", N: 200})
+		if rapid.IntRange(0, 2).Draw(t, "eq-lift") == 0 {
+			// the correct members' genuine PREPARE / COMMIT signatures for one proposal, replayed under the hash of the other one
+			w.Apply(sim.Action{K: "byz", N: 100, Byz: &sim.ByzSpec{Strat: "liftall", As: l, To: uint16(rapid.IntRange(1, int(full)).Draw(t, "eq-lift-to")), H: 1, V: 0, P: []int{rapid.IntRange(0, 1).Draw(t, "eq-lift-which")}}})
+			w.Apply(sim.Action{K: "byz", N: 100, Byz: &sim.ByzSpec{Strat: "support", As: l, To: full, H: 1, V: 0, P: []int{rapid.IntRange(0, 1).Draw(t, "eq-lift-support"), 0}}})
+		}
 		if lossy {
 			w.Apply(sim.Action{K: "dropheld"})
 			w.Apply(sim.Action{K: "release"})
